@@ -56,7 +56,7 @@ claimed = {
    design_ref="8.10",
    technique="contract-based frame (assigns) and lock-discipline obligations decided by an SSA may-write analysis over the real code"),
  "C17": dict(
-   text="Reduced scope, proved per function for all inputs: the vertex marks (Rel, Polar = (r cos t, r sin t), Smooth, Chamfer = one-facet fillet of radius size*sqrt(1/2), Arc; zero radius/facets change nothing; position and the other marks kept); relToAbs (every relative vertex becomes its offset plus the already resolved previous vertex, marks kept, no error when the first vertex is absolute); nextVertex/prevVertex (ring successor/predecessor, nil at an open end); Nagon (n < 3 -> nil, else n vertices, the first (r,0), all on the circle of that radius, each the previous one turned by 2*pi/n); Vertices (one point per vertex after the fix-ups, in list order or reversed); smoothVertex structure (false leaves the list untouched; true only for marked vertices, replaces exactly that vertex by facets+1 plain absolute points, keeps everything before and after in order, the new points all lie on ONE circle about the fillet centre c, the first is the tangent point p0 = v + d1*unit(prev - v) with d1 not beyond either edge, c = v + d2*unit(unit(prev-v)+unit(next-v))); arcVertex structure (facets-1 plain points inserted before the arc end, all at the previous vertex's distance from the arc centre, the centre on the chord's perpendicular bisector line, the arc end becomes plain, everything else kept); BezierPolynomial.Set stores the power-basis coefficients of the control points for 1..5 points (each exact or zeroed when below 1e-12 of the coefficient sum), order = highest remaining coefficient; lemma: those coefficients ARE the Bernstein form for degree 1..4 at every t (so the end control points are f(0) and f(1) and a degree-1 span is the straight line); f0 is Horner evaluation; BezierSpline.f0 pairs the x and y polynomials; Sample by recursion-by-contract: given p0 = f(t0), p1 = f(t1), t0 < t1 it either emits the span (p0 only when t0 == 0, then p1) or halves it at (t0+t1)/2 with the curve point there, first half first, one level deeper, at most to depth 9 - hence every emitted vertex is a curve point, parameters increase, the first is f(0) and the last f(1) (induction over depth is prose); NewBezierSpline feeds the x and the y coordinates of the control points in order to the two polynomials. NOT decided: that the fillet circle has exactly the given radius and is tangent to both edges, that its last point is the tangent point on the next edge, equal angular spacing, the arc's side selection and that the arc ends at the arc end (all need half-angle / angle-sum identities for the uninterpreted sin/cos/acos, not available), Bezier.handles/closure/Polygon bookkeeping, createArcs/smoothVertices termination.",
+   text="Reduced scope, proved per function for all inputs: the vertex marks (Rel, Polar = (r cos t, r sin t), Smooth, Chamfer = one-facet fillet of radius size*sqrt(1/2), Arc; zero radius/facets change nothing; position and the other marks kept); relToAbs (every relative vertex becomes its offset plus the already resolved previous vertex, marks kept, no error when the first vertex is absolute); nextVertex/prevVertex (ring successor/predecessor, nil at an open end); Nagon (n < 3 -> nil, else n vertices, the first (r,0), all on the circle of that radius, each the previous one turned by 2*pi/n); Vertices (one point per vertex after the fix-ups, in list order or reversed); smoothVertex structure (false leaves the list untouched; true only for marked vertices, replaces exactly that vertex by facets+1 plain absolute points, keeps everything before and after in order, the new points all lie on ONE circle about the fillet centre c, the first is the tangent point p0 = v + d1*unit(prev - v) with d1 not beyond either edge, c = v + d2*unit(unit(prev-v)+unit(next-v))); arcVertex structure (facets-1 plain points inserted before the arc end, all at the previous vertex's distance from the arc centre, the centre on the chord's perpendicular bisector line, the arc end becomes plain, everything else kept); BezierPolynomial.Set stores the power-basis coefficients of the control points for 1..5 points (each exact or zeroed when below 1e-12 of the coefficient sum), order = highest remaining coefficient; lemma: those coefficients ARE the Bernstein form for degree 1..4 at every t (so the end control points are f(0) and f(1) and a degree-1 span is the straight line); f0 is Horner evaluation; BezierSpline.f0 pairs the x and y polynomials; Sample by recursion-by-contract: given p0 = f(t0), p1 = f(t1), t0 < t1 it either emits the span (p0 only when t0 == 0, then p1) or halves it at (t0+t1)/2 with the curve point there, first half first, one level deeper, at most to depth 9 - hence every emitted vertex is a curve point, parameters increase, the first is f(0) and the last f(1) (induction over depth is prose); NewBezierSpline feeds the x and the y coordinates of the control points in order to the two polynomials. fillet geometry on the real code (proof script applying the lemma fillet_circle_touches_both_edges): for a corner that is neither straight nor folded back the tangent point is at exactly the given radius from the centre, the radius there is perpendicular to the previous edge, and the point at the same tangent length on the next edge is also at that radius with the radius perpendicular to that edge - so the circle has the given radius and touches both edges (uses acos, the double-angle axioms for the half angle and the quadrant signs); Bezier handles (Mid, HandleFwd/HandleRev store (|r|, theta), Handle stores the forward handle along theta and the reverse one along theta + pi). NOT decided: that the LAST fillet point is the tangent point on the next edge and that the facets are equally spaced (needs the angle-sum identity over a symbolic number of rotations), the arc's side selection and that the arc ends at the arc end, Bezier.handles/closure/Polygon bookkeeping, createArcs/smoothVertices termination.",
    design_ref="8.17",
    technique="contract-based deductive verification: per-path VCs from go/ssa over symbolic slices, loop invariants with the loop-invariant locals abstracted (forget) so that rotation-preserves-length is a small polynomial identity (discharged by cvc5), recursion by contract with a ghost call log, polynomial-identity lemma; SMT (QF_NRA, sin/cos uninterpreted with sin^2+cos^2=1)"),
  "C18": dict(
